@@ -180,7 +180,7 @@ fn registry(shape: &str, n: u32) -> (Ordered, BTreeMap<(u32, u32), Vec<(u32, Ran
 /// `scale|<shape>|<n>`
 pub fn eval_scale(req: &str, shape: &str, n: u32) -> Case {
     let (dp, reg) = registry(shape, n);
-    let res = crate::solver::watched(req.to_string(), || std::panic::catch_unwind(std::panic::AssertUnwindSafe(|| resolve(&dp, 0u32, 1u32))));
+    let res = crate::util::quiet(|| crate::solver::watched(req.to_string(), || std::panic::catch_unwind(std::panic::AssertUnwindSafe(|| resolve(&dp, 0u32, 1u32)))));
     let mut fail: Option<String> = None;
     let imp = match res {
         Err(e) => {
@@ -246,11 +246,18 @@ pub fn gen_scale(sink: &mut Sink, thorough: bool) {
     } else {
         lens.extend([65_533, 65_534, 65_535, 65_536]);
     }
+    for t in crate::util::thresholds(140_000) {
+        let t = t as u32;
+        lens.extend(t.saturating_sub(4).max(3)..=t + 2);
+    }
+    lens.sort();
+    lens.dedup();
     for n in &lens {
         sink.push(eval_line(&format!("scale|jump|{}", n)));
     }
-    let chains: &[u32] = if thorough { &[300, 70_000, 140_000] } else { &[300, 70_000] };
-    for n in chains {
+    let mut chains: Vec<u32> = if thorough { vec![300, 70_000, 140_000] } else { vec![300, 70_000] };
+    chains.extend(crate::util::thresholds(200_000).iter().map(|t| *t as u32 + 2));
+    for n in &chains {
         sink.push(eval_line(&format!("scale|chain|{}", n)));
     }
     // late conflicts: a conflict-rich tail decided on top of a chain of n levels, so that conflicts, backjumps
@@ -271,7 +278,13 @@ pub fn gen_scale(sink: &mut Sink, thorough: bool) {
             tails.push(seed);
         }
     }
-    let late_ns: Vec<u32> = if thorough { (65_530..=65_538).chain(252..=258).collect() } else { vec![254, 256, 65_533, 65_535] };
+    let mut late_ns: Vec<u32> = if thorough { (65_530..=65_538).chain(252..=258).collect() } else { vec![254, 256, 65_533, 65_535] };
+    for t in crate::util::thresholds(140_000) {
+        let t = t as u32;
+        late_ns.extend(t.saturating_sub(3).max(3)..=t + 1);
+    }
+    late_ns.sort();
+    late_ns.dedup();
     for (i, t) in tails.iter().enumerate() {
         for (j, n) in late_ns.iter().enumerate() {
             if thorough || (i + j) % 2 == 0 {
